@@ -342,6 +342,9 @@ class PaxosNode(Entity):
                 del self._proposal_futures[original_ballot]
             self._proposed_values[new_number] = value
             del self._proposed_values[original_ballot]
+            # The superseded ballot is abandoned: late responses for it are ignored
+            self._phase1_responses.pop(original_ballot, None)
+            self._phase2_responses.pop(original_ballot, None)
             self._phase1_responses[new_number] = []
             self._phase2_responses[new_number] = 0
 
@@ -441,7 +444,7 @@ class PaxosNode(Entity):
         self._accepts_received += 1
 
         if ballot_number not in self._phase2_responses:
-            self._phase2_responses[ballot_number] = 0
+            return []  # response for an abandoned ballot
         self._phase2_responses[ballot_number] += 1
 
         if self._phase2_responses[ballot_number] >= self.quorum_size and not self._decided:
